@@ -74,6 +74,20 @@ def must_keys(func_node, recv, seed=frozenset()):
     `del recv[k]` / recv.pop(k) remove; re-binding of the receiver to a dict literal resets to the literal's keys; any other
     re-binding resets to the empty set."""
     returns = []
+    # local names that are the receiver under another name (`column = p[0]`): bound once, to the receiver, never re-bound, and
+    # the receiver itself is not re-bound after that point
+    names = {recv}
+    for st in func_node.body:
+        if isinstance(st, ast.Assign) and len(st.targets) == 1 and isinstance(st.targets[0], ast.Name) and recv_text(st.value) == recv:
+            nm = st.targets[0].id
+            others = [n for n in ast.walk(func_node) if n is not st and isinstance(n, (ast.Assign, ast.AugAssign, ast.AnnAssign, ast.For, ast.NamedExpr))
+                      and any(isinstance(x, ast.Name) and x.id == nm and isinstance(x.ctx, ast.Store) for x in ast.walk(n))]
+            rebound = [n for n in ast.walk(func_node) if isinstance(n, ast.Assign) and n.lineno > st.lineno and any(recv_text(t) == recv for t in n.targets)]
+            if not others and not rebound:
+                names.add(nm)
+
+    def is_recv(e):
+        return recv_text(e) in names
 
     def lit_keys(v):
         if isinstance(v, ast.Dict) and all(isinstance(k, ast.Constant) for k in v.keys if k is not None) and None not in v.keys:
@@ -82,11 +96,13 @@ def must_keys(func_node, recv, seed=frozenset()):
 
     def expr_effects(e, cur):
         for n in ast.walk(e):
-            if isinstance(n, ast.Call) and isinstance(n.func, ast.Attribute) and recv_text(n.func.value) == recv:
+            if isinstance(n, ast.Call) and isinstance(n.func, ast.Attribute) and is_recv(n.func.value):
                 if n.func.attr == "update" and n.args and isinstance(n.args[0], ast.Dict):
                     lk = lit_keys(n.args[0])
                     if lk:
                         cur = cur | lk
+                elif n.func.attr == "setdefault" and n.args and isinstance(n.args[0], ast.Constant):
+                    cur = cur | {n.args[0].value}
                 elif n.func.attr == "pop" and n.args and isinstance(n.args[0], ast.Constant):
                     cur = cur - {n.args[0].value}
                 elif n.func.attr in ("clear", "popitem"):
@@ -103,7 +119,7 @@ def must_keys(func_node, recv, seed=frozenset()):
                     if recv_text(t) == recv:
                         lk = lit_keys(st.value)
                         cur = lk if lk is not None else frozenset()
-                    elif isinstance(t, ast.Subscript) and recv_text(t.value) == recv and isinstance(t.slice, ast.Constant):
+                    elif isinstance(t, ast.Subscript) and is_recv(t.value) and isinstance(t.slice, ast.Constant):
                         cur = cur | {t.slice.value}
             elif isinstance(st, ast.AugAssign):
                 cur = expr_effects(st.value, cur)
@@ -111,7 +127,7 @@ def must_keys(func_node, recv, seed=frozenset()):
                 cur = expr_effects(st.value, cur)
             elif isinstance(st, ast.Delete):
                 for t in st.targets:
-                    if isinstance(t, ast.Subscript) and recv_text(t.value) == recv:
+                    if isinstance(t, ast.Subscript) and is_recv(t.value):
                         cur = cur - {t.slice.value} if isinstance(t.slice, ast.Constant) else frozenset()
             elif isinstance(st, ast.Return):
                 if st.value is not None:
